@@ -56,6 +56,12 @@ func ExprName(e ast.Expr) string {
 	case *ast.BasicLit:
 		return x.Value
 	case *ast.CallExpr:
+		// zero-argument getters: x.GetEnd() is an operand named "x.GetEnd()"
+		if len(x.Args) == 0 {
+			if b := ExprName(x.Fun); b != "" {
+				return b + "()"
+			}
+		}
 		// conversions T(x)
 		if len(x.Args) == 1 {
 			if id, ok := x.Fun.(*ast.Ident); ok {
